@@ -84,7 +84,7 @@ for d in sorted(glob.glob(os.path.join(V, 'seeded', 'C*-*'))):
 out.append('\nOf %d seeded changes %d were caught by the target property\'s check as it stood when the change arrived; '
            'every miss led to a generator or oracle extension (never to a loosened check), after which all are caught '
            '(two of them by the neighbouring property that owns the behaviour, see notes). Caught on arrival per round: '
-           'second %d of %d, third %d of %d, fourth %d of %d, fifth %d of %d, sixth %d of %d, seventh %d of %d, eighth %d of %d (two of its sub-agents ended without a result; each round was asked to avoid all mechanisms of the '
+           'second %d of %d, third %d of %d, fourth %d of %d, fifth %d of %d, sixth %d of %d, seventh %d of %d, eighth %d of %d (two of its sub-agents ended without a result and were re-run; each round was asked to avoid all mechanisms of the '
            'earlier rounds, so later rounds probe ever more remote corners: data-dependent shortcuts, histories through '
            'load_state_dict, aliasing of constructor arguments, batches of millions of samples, autograd / train-eval modes, option containers, process-wide switches, single-orientation images).\n'
            % (tot, first, r2first, r2tot, r3first, r3tot, r4first, r4tot, r5first, r5tot, r6first, r6tot, r7first, r7tot, r8first, r8tot))
